@@ -49,8 +49,10 @@ def globals_part(run):
     from vp.symonnx import scripts as S
     import numpy as np
     res = {}
-    src = (S.HEADER + "import numpy as np\nK = 2.0\nAX = [0]\nW = np.array([1.0, 2.0], dtype=np.float32)\n@script(default_opset=op)\n"
-           "def f(x: FLOAT[2]) -> FLOAT[2]:\n    return x * K + op.ReduceSum(x, AX, keepdims=1) + op.Add(x, W)\n")
+    src = (S.HEADER + "import numpy as np\nfrom onnx import numpy_helper as nh\nK = 2.0\nAX = [0]\nW = np.array([1.0, 2.0], dtype=np.float32)\n"
+           "T = nh.from_array(np.array([5.0, 6.0], dtype=np.float32), 't')\nA = np.array([0.5, 0.25], dtype=np.float32)\n"
+           "@script(default_opset=op)\n"
+           "def f(x: FLOAT[2]) -> FLOAT[2]:\n    return x * K + op.ReduceSum(x, AX, keepdims=1) + op.Add(x, W) + op.Constant(value=T) + op.Constant(value=A)\n")
     mod = S.load_source(src, "c14g")
     f = mod.f
     p1 = f.to_model_proto().SerializeToString(deterministic=True)
@@ -64,6 +66,8 @@ def globals_part(run):
     mod.AX.append(1)      # in-place mutation of a list global
     mod.AX = [-1]
     mod.W[0] = 100.0      # in-place mutation of a NumPy array global
+    mod.T.CopyFrom(mod.nh.from_array(np.array([9.0, 6.0], dtype=np.float32), "t"))   # ... of a TensorProto used as an attribute value
+    mod.A[1] = -7.0       # ... of an array used as an attribute value
     p3 = f.to_model_proto().SerializeToString(deterministic=True)
     res["proto_independent_of_global_rebinding"] = (p1 == p3)
     e2 = np.asarray(f(x)).tolist()
